@@ -376,18 +376,26 @@ func genTs(r *Rng, kind, n int, base int64) []int64 {
 		case 1: // non-decreasing in a narrow band: many ties within and across sources
 			cur += int64(r.Intn(2))
 			ts[i] = cur
+		case 3: // the ends of the int64 axis and the neighbourhood of the former model.MinTimestamp (time.Time{}.UnixNano()), time ordered
+			ts[i] = extremeTs[r.Intn(len(extremeTs))]
 		default: // unsorted
 			ts[i] = base + int64(r.Intn(8))
 		}
 	}
+	if kind == 3 {
+		sort.Slice(ts, func(a, b int) bool { return ts[a] < ts[b] })
+	}
 	return ts
 }
+
+// extremeTs: timestamps a WHERE filter without RANGE must let through (its default range is the whole int64 axis)
+var extremeTs = []int64{-9223372036854775808, -9223372036854775807, -6795364578871345153, -6795364578871345152, -6795364578871345151, -1, 0, 1, 9223372036854775806, 9223372036854775807}
 
 func genDirect(r *Rng) *Replay {
 	rp := &Replay{Kind: "direct"}
 	n := r.PickInt(1, 2, 2, 3, 3, 3, 4, 5, 5, 6, 7, 8, 9)
-	kind := r.PickInt(0, 1, 1, 1, 2)
-	withFlt := r.Chance(1, 4)
+	kind := r.PickInt(0, 1, 1, 1, 2, 3)
+	withFlt := r.Chance(1, 4) || (kind == 3 && r.Chance(1, 2))
 	total := 0
 	for i := 0; i < n; i++ {
 		ln := r.PickInt(0, 0, 1, 1, 2, 3, 4, 6)
@@ -894,7 +902,7 @@ func run(c *Ctx) error {
 		for len(sizes) < 10 {
 			sizes = append(sizes, c.Rng.Range(2, P))
 		}
-		jobs = append(jobs, job{P, sizes, c.Rng.PickInt(0, 1, 1, 2)})
+		jobs = append(jobs, job{P, sizes, c.Rng.PickInt(0, 1, 1, 2, 3)})
 	}
 	for k := 0; k < c.N(2); k++ {
 		jobs = append(jobs, job{60, []int{48, 49, 50, 51, 52, 60, c.Rng.Range(10, 47), c.Rng.Range(4, 9), c.Rng.Range(53, 59), 49, 50}, c.Rng.PickInt(0, 1)})
